@@ -181,13 +181,27 @@ TRUSTED = [
 if __name__ == "__main__":
     import translate_handover
     from common import source_obligation
-    main("C02", [HierStream(), LateExpose(), BareStream()],
+    import c05
+
+    class TwinPlacements(c05.SharedStream):
+        """ONE parameterised sub-solver placed twice in a parent under different renamings, the placements often wired to each
+        other (the stream of C05, twin cases only): the nested circuit must report what the flat circuit of its parts reports
+        for the parameter values each placement receives — the model evaluates the tree leaf by leaf"""
+        name = "twin_placements"
+
+        def generate(self, rng, tier):
+            out = [d for d in super().generate(rng, tier) if '"twin_of"' in json.dumps(d["tree"])]
+            return out[:80 if tier == "quick" else 1000]
+
+    main("C02", [HierStream(), LateExpose(), BareStream(), TwinPlacements()],
          source_obligations=[
              source_obligation("HandoverSrc_C02", translate_handover.translate, "HandoverSrcProof.v",
                                ["get_model_src_is_restrict", "model_N_src_is_matrix_size", "createS_pins_src_fresh"])],
          level_text="props/C02.v; the correspondence builds nested Solvers in /repo (sub-solvers re-used, partial exposure at "
                     "every level, optional edit of a shared sub-solver between two parent solves) and lets Coq compare the "
                     "observed top-level matrix with BOTH the nested model (solve_hier) and the flat single-level circuit "
-                    "(solve of inline), so that nested = flat is checked on every case.",
+                    "(solve of inline), so that nested = flat is checked on every case. A fourth stream places one PARAMETERISED "
+                    "sub-solver twice under different renamings (the twin cases of C05's stream) and requires the value the "
+                    "model computes leaf by leaf.",
          trusted_base=TRUSTED,
          assumptions=["theorems conditional on the model returning Ok", "round-off abstracted by tolerance 1e-9"])
